@@ -9,6 +9,7 @@
 #include "internal.h"
 #include "port.h"
 #include "thread_pool.h"
+#include "verif.h"
 
 /*
  * Work
@@ -150,6 +151,8 @@ ldb_pool_destroy(ldb_pool_t *pool) {
 
   pool->stop = 1;
 
+  LCDB_EV(("PoolStop", "\"pool\":%d,\"running\":%d", LCDB_ID(pool), pool->running));
+
   ldb_cond_broadcast(&pool->worker);
   ldb_mutex_unlock(&pool->mutex);
 
@@ -187,6 +190,8 @@ ldb_pool_schedule(ldb_pool_t *pool, ldb_work_f *func, void *arg) {
   ldb_queue_push(&pool->queue, func, arg);
 
   pool->left++;
+
+  LCDB_EV(("PoolSchedule", "\"pool\":%d,\"qlen\":%d", LCDB_ID(pool), (int)pool->queue.length));
 
   ldb_cond_signal(&pool->worker);
   ldb_mutex_unlock(&pool->mutex);
@@ -234,6 +239,8 @@ worker_thread(void *arg) {
     work = ldb_queue_shift(&pool->queue);
     ran = 1;
 
+    LCDB_EV(("PoolRun", "\"pool\":%d", LCDB_ID(pool)));
+
     ldb_mutex_unlock(&pool->mutex);
 
     ldb_work_execute(work);
@@ -241,6 +248,8 @@ worker_thread(void *arg) {
 
   if (--pool->running == 0)
     ldb_cond_signal(&pool->master);
+
+  LCDB_EV(("PoolWorkerExit", "\"pool\":%d,\"running\":%d", LCDB_ID(pool), pool->running));
 
   ldb_mutex_unlock(&pool->mutex);
 }
